@@ -146,6 +146,9 @@ def check_fixup(report, lib: Lib):
                     r3.check(ks.endswith(".name|snake_case()}'"), *where(sk, k, lib.root), ks, "keys are the snake-cased raw rpc names")
                     extra = [g for g in seg.guards if g[0] not in ("loop",)]
                     r3.check(not extra, *where(sk, k, lib.root), f"entry guarded by {extra}", "no rpc may be filtered out of the table")
+                    r3.check(isinstance(v, ast.Tuple), *where(sk, v, lib.root), f"value of {ks}: {D(sk, v)[:80]} is a {type(v).__name__}",
+                             "every table value must be a tuple literal for every number of request fields; `('name')` (one field, no trailing comma) "
+                             "is a plain string, and the script would then treat each CHARACTER of the name as a parameter")
                     if isinstance(v, ast.Tuple):
                         vals = [D(sk, e) for e in v.elts]
                         base = ks[2:-len(".name|snake_case()}'")]
